@@ -46,6 +46,9 @@ os.makedirs('/tmp/seed', exist_ok=True)
 WAVE2 = '''
 
 Additional requirement for this round: another engineer has already produced one seeded defect for this property (you do not know which). To maximise diversity, prefer a mechanism that is NOT the first thing that comes to mind: e.g. a defect in a helper / secondary code path (a different file than the most obvious one), an interaction between two options, state that leaks between calls or objects, an input format variant, a boundary between two regimes (first/last index, exactly-equal comparison, empty or single-element collections), or an error path that now returns silently. The same rules apply (tests must still pass, demo must fail/pass).'''
+WAVE3 = '''
+
+Additional requirement for this round: two other engineers have already produced seeded defects for this property (you do not know which). Choose a defect that only manifests through an INTERACTION of the code behind this property with another feature of the package - for instance file-based execution (file_dir), copies / reloaded objects, layered mode, automatic gridding, the CLI, noise settings, relative receivers, magnetic sources/receivers, a particular anisotropy case, the Laplace domain, mu_r / epsilon_r, user-named (dict) sources/receivers/frequencies, verbosity / logging options, or reuse of one object for several calls. Avoid the most direct code path. The same rules apply (tests must still pass, demo must fail/pass).'''
 for pid in sys.argv[1:]:
     tag = pid
     base = pid.split('-')[0]
@@ -59,5 +62,5 @@ for pid in sys.argv[1:]:
     open(f'/tmp/seed/{tag}.prompt', 'w').write(T.format(
         wt=wt, out=f'/tmp/seed/{tag}.out', id=p['id'], title=p['title'],
         statement=p['statement'], quant=p['quantifier']['text'],
-        files=', '.join(p['anchors']['files'])) + (WAVE2 if '-' in pid else ''))
+        files=', '.join(p['anchors']['files'])) + (WAVE3 if pid.endswith('-w3') else WAVE2 if '-' in pid else ''))
     print('prepared', wt)
